@@ -70,6 +70,7 @@ Judge(ev) ==
      ELSE IF ev.c.op = "OTHER" THEN TRUE
      ELSE IF ev.ro /\ ev.c.op \notin ReadOnlyOps THEN Verdict(ev, "the code classifies as read-only a command that the model says may write")
      ELSE IF ~ModelChecks \/ ev.c.op \in TolerateOps THEN TRUE
+     ELSE IF ev.c.op = "SORT" /\ SortLoose(ev.c, Live(pre, ev.now)) THEN TRUE
      ELSE IF ev.c.op = "INCRBYFLOAT" /\ IncrFloatLoose(ev.c, Live(pre, ev.now)) THEN TRUE     \* the current value is a float in some syntax the model does not read
      ELSE LET alts == DoAlts(ev.c, pre, now)
               Match(res) == ReplyOkVia(ViaOf(ev), res.r, ev.r) /\ StateEq(Live(res.s, now), after)
